@@ -385,6 +385,54 @@ def slow_catchup(ctx, p):
     return {"viol": viol, "served_first": bool(first), "caught_up": oo.raftLastApplied == lo.raftLastApplied}
 
 
+def learn_voter_by_snapshot(ctx, p):
+    """A read-only node must dial every voter itself.  A voter that joined the cluster while the read-only node was away,
+    and whose `add` entry has been compacted away since, is learnt from the SNAPSHOT only: the read-only node's member
+    set and its transport (the nodes it dials) both take it over; it then follows the state of the grown cluster."""
+    voters = ["a", "b", "c"]
+    s = simmod.Sim(ctx.repo, voters, observers=["o"], conf=dict(dynamicMembershipChange=True), seed=p["seed"])
+    for n, a in enumerate(voters):
+        for b in voters[n + 1:]:
+            s.connect(a, b)
+    viol = []
+    ldr = s.elect(among=voters)
+    if ldr is None:
+        return {"viol": [], "skipped": True}
+    _alive_run(s, 6, among=voters)
+    res = []
+    s._call(ldr, s.objs[ldr].addNodeToCluster, s.Node("d"), callback=lambda r, e: res.append(e))
+    _alive_run(s, 12, among=voters)
+    s.now["d"] = max(s.now.values())
+    s.voters.append("d")
+    s._start("d", others=voters)
+    for v in voters:
+        s.connect("d", v)
+    for k in range(p["cmds"]):
+        s.submit(ldr, "m%d" % k)
+    _alive_run(s, 16, among=voters + ["d"])
+    for v in voters + ["d"]:
+        s.compact(v)
+    _alive_run(s, 6, among=voters + ["d"])
+    if 0 not in res or s.log_of(ldr)[0][0] <= 2:
+        return {"viol": [], "skipped": True}
+    for v in voters:                          # the read-only node knows a, b, c only
+        s.connect("o", v)
+    _alive_run(s, 30, among=voters + ["d", "o"])
+    o = s.objs["o"]
+    members = sorted(n.id for n in s.P("o", "otherNodes"))
+    dialled = sorted(n.id for n in s.transports["o"].nodes)
+    if "d" not in members or "d" not in dialled:
+        viol.append({"signature": "observer:voter-learnt-by-snapshot-not-dialled",
+                     "what": "voter d joined while read-only node o was away, its add entry was compacted away (leader log starts at %d): "
+                             "after catching up by snapshot o knows the voters %s, its transport was told to dial %s"
+                             % (s.log_of(ldr)[0][0], members, dialled)})
+    if o.raftLastApplied != s.objs[ldr].raftLastApplied or list(o.log) != list(s.objs[ldr].log):
+        viol.append({"signature": "observer:not-converged-after-snapshot",
+                     "what": "read-only node applied %d, leader %d" % (o.raftLastApplied, s.objs[ldr].raftLastApplied)})
+    _observer_checks(s, viol)
+    return {"viol": viol}
+
+
 def gen(ctx):
     rng = ctx.rng("c18_observers")
     out = []
@@ -401,6 +449,8 @@ def gen(ctx):
                     "seed": 61 + stale + fresh})
     for obs in ("a0", "o0", "w0", "zz"):          # ids that sort / hash before and after the voters' ids
         out.append({"kind": "slow_catchup", "nv": 3, "no": 1, "obs": obs, "backlog": 300, "cost": 0.02, "settle": 20.0, "seed": 51})
+    for cmds in (5, 12):
+        out.append({"kind": "learn_voter_by_snapshot", "nv": 3, "no": 1, "cmds": cmds, "seed": 71 + cmds})
     for stale in (10, 3, 0):
         for fresh in (2, 5):
             out.append({"kind": "releader", "nv": 3, "no": 1, "T": 0.5, "stale": stale, "fresh": fresh, "seed": 21 + stale})
@@ -415,14 +465,14 @@ def gen(ctx):
 
 
 KINDS = {"minority": minority, "churn": churn, "releader": releader, "rejoin_conflict": rejoin_conflict,
-         "slow_catchup": slow_catchup}
+         "slow_catchup": slow_catchup, "learn_voter_by_snapshot": learn_voter_by_snapshot}
 
 
 def run(ctx):
     logging.getLogger().setLevel(logging.CRITICAL + 1)
     t0 = time.time()
     viols = []
-    cov = {"churn": 0, "minority": 0, "releader": 0, "rejoin_conflict": 0, "slow_catchup": 0, "observer_acks_in_minority": 0, "minority_stepdowns": 0, "commands_via_observer_success": 0,
+    cov = {"learn_voter_by_snapshot": 0, "churn": 0, "minority": 0, "releader": 0, "rejoin_conflict": 0, "slow_catchup": 0, "observer_acks_in_minority": 0, "minority_stepdowns": 0, "commands_via_observer_success": 0,
            "skipped": 0, "by_observers": {}}
     distinct = set()
     ps = gen(ctx)
@@ -440,7 +490,7 @@ def run(ctx):
         if p["kind"] == "minority":
             cov["observer_acks_in_minority"] += r["observer_acks"]
             cov["minority_stepdowns"] += 1 if r["stepped_down"] else 0
-        elif p["kind"] in ("releader", "rejoin_conflict"):
+        elif p["kind"] in ("releader", "rejoin_conflict", "learn_voter_by_snapshot"):
             pass
         elif p["kind"] == "slow_catchup":
             cov["slow_catchup_served_first"] = cov.get("slow_catchup_served_first", 0) + (1 if r.get("served_first") else 0)
@@ -455,6 +505,8 @@ def run(ctx):
            "violations": viols[:6], "wall_s": round(time.time() - t0, 2)}
     if cov["rejoin_conflict"] < 1 or cov.get("slow_catchup_served_first", 0) < 1:
         res["inconclusive"] = "observer joining a leader in office with a conflicting suffix / served before the voters not reached: %r" % (cov,)
+    elif cov["learn_voter_by_snapshot"] < 1:
+        res["inconclusive"] = "read-only node learning a voter from a snapshot not reached: %r" % (cov,)
     elif cov["releader"] < 2:
         res["inconclusive"] = "re-elected leader with an observer on the same connection not reached: %r" % (cov,)
     elif cov["churn"] < 10 or cov["minority"] < 10 or cov["observer_acks_in_minority"] < 20 or cov["commands_via_observer_success"] < 5:
